@@ -360,6 +360,13 @@ func (c *cg) ret(r *ast.ReturnStmt) string {
 		}
 		return "(some " + c.expr(r.Results[0]) + ")"
 	}
+	if n := len(strings.Split(c.s.named, ",")); n > 1 && len(r.Results) == n {
+		var es []string
+		for _, e := range r.Results {
+			es = append(es, c.expr(e))
+		}
+		return "(" + strings.Join(es, ", ") + ")"
+	}
 	if len(r.Results) != 1 {
 		return c.fail("return with %d results", len(r.Results))
 	}
@@ -712,9 +719,13 @@ func (c *cg) stateLoop(r *ast.RangeStmt) (string, bool) {
 	}
 	x, ok := r.Value.(*ast.Ident)
 	if !ok {
-		return "", false
-	}
-	if k, ok := r.Key.(*ast.Ident); r.Key != nil && (!ok || k.Name != "_") {
+		// `for k := range M`: the keys of a map the dictionary lists (in the order it lists them: the body must not depend on it)
+		k, isK := r.Key.(*ast.Ident)
+		if r.Value != nil || !isK {
+			return "", false
+		}
+		x = k
+	} else if k, ok := r.Key.(*ast.Ident); r.Key != nil && (!ok || k.Name != "_") {
 		return "", false
 	}
 	for _, v := range c.s.loopVars {
@@ -733,8 +744,12 @@ func (c *cg) stateLoop(r *ast.RangeStmt) (string, bool) {
 			names = append(names, strings.Fields(m[1])...)
 		}
 		name := fmt.Sprintf("%s_step%d", c.s.lean, len(c.s.aux)+1)
+		elem := c.s.loopElem
+		if es := strings.Split(c.s.loopElem, ","); len(es) > 1 && len(c.s.aux) < len(es) {
+			elem = es[len(c.s.aux)] // one element type per loop, in source order
+		}
 		c.s.aux = append(c.s.aux, fmt.Sprintf("/-- %s: one round of the loop over `%s` in `%s` -/\ndef %s %s (st_ : %s) (%s : %s) : %s :=\n  match st_ with\n  | %s =>\n%s\n",
-			c.s.file, exprText(r.X), c.s.name, name, c.s.binders, c.s.loopType, leanIdent(x.Name), c.s.loopElem, c.s.loopType, tup, body))
+			c.s.file, exprText(r.X), c.s.name, name, c.s.binders, c.s.loopType, leanIdent(x.Name), elem, c.s.loopType, tup, body))
 		return "let " + tup + " := List.foldl (" + name + " " + strings.Join(names, " ") + ") " + tup + " " + l, true
 	}
 	return "let " + tup + " := List.foldl (fun " + tup + " " + leanIdent(x.Name) + " =>\n" + body + ") " + tup + " " + l, true
@@ -756,7 +771,21 @@ func (c *cg) block(list []ast.Stmt, ind string) string {
 	}
 	rest := func() string { return c.block(list[1:], ind) }
 	switch s := list[0].(type) {
+	case *ast.RangeStmt:
+		// a loop inside the loop, over the same state
+		if out, ok := c.stateLoop(s); ok {
+			return ind + out + "\n" + rest()
+		}
+		return ind + c.fail("inner range loop of an unknown shape")
 	case *ast.AssignStmt:
+		if len(s.Lhs) == 2 && len(s.Rhs) == 2 && s.Tok == token.ASSIGN {
+			a, ok1 := s.Lhs[0].(*ast.Ident)
+			b, ok2 := s.Lhs[1].(*ast.Ident)
+			if ok1 && ok2 {
+				e1, e2 := c.expr(s.Rhs[0]), c.expr(s.Rhs[1])
+				return ind + "let (" + leanIdent(a.Name) + ", " + leanIdent(b.Name) + ") := (" + e1 + ", " + e2 + ")\n" + rest()
+			}
+		}
 		if len(s.Lhs) == 2 && len(s.Rhs) == 1 && exprText(s.Lhs[1]) == "_" {
 			if x, ok := s.Lhs[0].(*ast.Ident); ok {
 				rhs := c.expr(s.Rhs[0])
@@ -766,6 +795,25 @@ func (c *cg) block(list []ast.Stmt, ind string) string {
 		}
 		if len(s.Lhs) != 1 || len(s.Rhs) != 1 || (s.Tok != token.ASSIGN && s.Tok != token.DEFINE) {
 			return ind + c.fail("assignment in a loop body")
+		}
+		if ix, ok := s.Lhs[0].(*ast.IndexExpr); ok && s.Tok == token.ASSIGN {
+			// `m[k] = E` on a map the dictionary knows how to update; E may be a call of a closure that
+			// also updates a state variable ("st:<closure>" = the translated closure applied to that state, "stvar:<closure>" = the variable)
+			if f, ok := c.s.calls["set:"+exprText(ix.X)]; ok {
+				m := c.expr(ix.X)
+				key := c.expr(ix.Index)
+				if call, isCall := s.Rhs[0].(*ast.CallExpr); isCall {
+					if g, ok := c.s.calls["st:"+exprText(call.Fun)]; ok {
+						var args []string
+						for _, a := range call.Args {
+							args = append(args, c.expr(a))
+						}
+						sv := leanIdent(c.s.calls["stvar:"+exprText(call.Fun)])
+						return ind + "let (v_, " + sv + ") := (" + g + " " + strings.Join(args, " ") + ")\n" + ind + "let " + m + " := (" + f + " " + m + " " + key + " v_)\n" + rest()
+					}
+				}
+				return ind + "let " + m + " := (" + f + " " + m + " " + key + " " + c.expr(s.Rhs[0]) + ")\n" + rest()
+			}
 		}
 		id, ok := s.Lhs[0].(*ast.Ident)
 		if !ok {
@@ -820,6 +868,47 @@ func (c *cg) block(list []ast.Stmt, ind string) string {
 		return ind + "let " + c.tuple() + " := (" + pre + "if " + cond + " then\n" + thenT + "\n" + ind + "  else\n" + elseT + ")\n" + rest()
 	}
 	return ind + c.fail("statement of kind %T in a loop body", list[0])
+}
+
+// whileState: `for v := E; COND; { ...statements updating the locals listed in loopVars... }` - a loop that runs
+// while COND holds, over the tuple of those locals; the rounds it may take come from the `fuel_` parameter
+func (c *cg) whileState(f *ast.ForStmt) (string, bool) {
+	if len(c.s.loopVars) == 0 || f.Post != nil || f.Cond == nil {
+		return "", false
+	}
+	pre := ""
+	if f.Init != nil {
+		a, ok := f.Init.(*ast.AssignStmt)
+		if !ok || len(a.Lhs) != 1 || len(a.Rhs) != 1 || a.Tok != token.DEFINE {
+			return "", false
+		}
+		id, ok := a.Lhs[0].(*ast.Ident)
+		if !ok {
+			return "", false
+		}
+		rhs := c.expr(a.Rhs[0])
+		c.s.locals[id.Name] = true
+		pre = "let " + leanIdent(id.Name) + " := " + rhs + "; "
+	}
+	for _, v := range c.s.loopVars {
+		if !c.s.locals[v] {
+			return "", false
+		}
+	}
+	tup := c.tuple()
+	cond := c.expr(f.Cond)
+	body := c.block(f.Body.List, "    ")
+	if c.s.loopType == "" {
+		return pre + "let " + tup + " := whileFuel (fun " + tup + " => " + cond + ") (fun " + tup + " =>\n" + body + ") fuel_ " + tup, true
+	}
+	var names []string
+	for _, m := range regexp.MustCompile(`\(([^:()]+):`).FindAllStringSubmatch(c.s.binders, -1) {
+		names = append(names, strings.Fields(m[1])...)
+	}
+	name := fmt.Sprintf("%s_step%d", c.s.lean, len(c.s.aux)+1)
+	c.s.aux = append(c.s.aux, fmt.Sprintf("/-- %s: one round of the `for %s` loop of `%s` -/\ndef %s %s (st_ : %s) : %s :=\n  match st_ with\n  | %s =>\n%s\n",
+		c.s.file, exprText(f.Cond), c.s.name, name, c.s.binders, c.s.loopType, c.s.loopType, tup, body))
+	return pre + "let " + tup + " := whileFuel (fun " + tup + " => " + cond + ") (" + name + " " + strings.Join(names, " ") + ") fuel_ " + tup, true
 }
 
 // foldErrLoop: `for _, x := range L { if C(x) { v, err = F(x, v); p.CheckErr(err, ...) } }` - a fold over L
@@ -1016,6 +1105,9 @@ func (c *cg) stmts(list []ast.Stmt, k func(ind string) string, ind string) strin
 		if out, ok := c.whileLoop(s); ok {
 			return ind + out + "\n" + rest(ind)
 		}
+		if out, ok := c.whileState(s); ok {
+			return ind + out + "\n" + rest(ind)
+		}
 		return ind + c.fail("for loop of an unknown shape")
 	case *ast.AssignStmt:
 		// `x, err := q(state, args...)` with q a query of the state (no faults in the model)
@@ -1080,6 +1172,24 @@ func (c *cg) stmts(list []ast.Stmt, k func(ind string) string, ind string) strin
 					m := c.expr(ix.X)
 					return ind + "let " + m + " := (" + f + " " + m + " " + c.expr(ix.Index) + " " + c.expr(s.Rhs[0]) + ")\n" + rest(ind)
 				}
+			}
+		}
+		// `f := func(...) {...}`: a closure translated on its own ("st:f" in the dictionary)
+		if len(s.Lhs) == 1 && len(s.Rhs) == 1 {
+			if _, isLit := s.Rhs[0].(*ast.FuncLit); isLit {
+				if _, ok := c.s.calls["st:"+exprText(s.Lhs[0])]; ok {
+					return rest(ind)
+				}
+			}
+		}
+		// `a, b = e1, e2`: both right-hand sides are read before either variable changes
+		if len(s.Lhs) == 2 && len(s.Rhs) == 2 {
+			a, ok1 := s.Lhs[0].(*ast.Ident)
+			b, ok2 := s.Lhs[1].(*ast.Ident)
+			if ok1 && ok2 {
+				e1, e2 := c.expr(s.Rhs[0]), c.expr(s.Rhs[1])
+				c.s.locals[a.Name], c.s.locals[b.Name] = true, true
+				return ind + "let (" + leanIdent(a.Name) + ", " + leanIdent(b.Name) + ") := (" + e1 + ", " + e2 + ")\n" + rest(ind)
 			}
 		}
 		// `_, x := call`: the second component of the pair the call yields
@@ -1606,6 +1716,47 @@ func codeSpecs() []*fnSpec {
 		parSpec("BoolDefault", "parameters_BoolDefault", "(p : Pgs.C19.Map) (name : Pgs.Bytes) (def_ : Bool)", "Except Pgs.Bytes Bool", "err"),
 		parSpec("Bool", "parameters_Bool", "(p : Pgs.C19.Map) (name : Pgs.Bytes)", "Except Pgs.Bytes Bool", "err"),
 		parSpec("SetBool", "parameters_SetBool", "(p : Pgs.C19.Map) (name : Pgs.Bytes) (b : Bool)", "Pgs.C19.Map", "void"),
+		// floats and durations: the codecs (strconv.ParseFloat / FormatFloat 'g' -1 64, time.ParseDuration / Duration.String) are parameters
+		func() *fnSpec {
+			sp := parSpec("FloatDefault", "parameters_FloatDefault", "{α : Type} (parseF : Pgs.Bytes → Except Pgs.Bytes α) (p : Pgs.C19.Map) (name : Pgs.Bytes) (def_ : α)", "Except Pgs.Bytes α", "err")
+			sp.pn, sp.ints = []string{"name", "def"}, map[string]bool{}
+			sp.calls["strconv.ParseFloat"] = "parseFloatE parseF"
+			return sp
+		}(),
+		func() *fnSpec {
+			sp := parSpec("Float", "parameters_Float", "{α : Type} (parseF : Pgs.Bytes → Except Pgs.Bytes α) (zero : α) (p : Pgs.C19.Map) (name : Pgs.Bytes)", "Except Pgs.Bytes α", "err")
+			sp.pn = []string{"name"}
+			sp.calls["p.FloatDefault"] = "parameters_FloatDefault parseF p"
+			sp.exprs["0"] = "zero"
+			return sp
+		}(),
+		func() *fnSpec {
+			sp := parSpec("SetFloat", "parameters_SetFloat", "{α : Type} (formatF : α → Pgs.Bytes) (p : Pgs.C19.Map) (name : Pgs.Bytes) (f : α)", "Pgs.C19.Map", "void")
+			sp.pn, sp.ints = []string{"name", "f"}, map[string]bool{}
+			sp.exprs["f"] = "f"
+			delete(sp.exprs, "0")
+			sp.calls["strconv.FormatFloat"] = "formatFloatB formatF"
+			return sp
+		}(),
+		func() *fnSpec {
+			sp := parSpec("DurationDefault", "parameters_DurationDefault", "{α : Type} (parseD : Pgs.Bytes → Except Pgs.Bytes α) (p : Pgs.C19.Map) (name : Pgs.Bytes) (def_ : α)", "Except Pgs.Bytes α", "err")
+			sp.pn = []string{"name", "def"}
+			sp.calls["time.ParseDuration"] = "parseD"
+			return sp
+		}(),
+		func() *fnSpec {
+			sp := parSpec("Duration", "parameters_Duration", "{α : Type} (parseD : Pgs.Bytes → Except Pgs.Bytes α) (zero : α) (p : Pgs.C19.Map) (name : Pgs.Bytes)", "Except Pgs.Bytes α", "err")
+			sp.pn = []string{"name"}
+			sp.calls["p.DurationDefault"] = "parameters_DurationDefault parseD p"
+			sp.exprs["0"] = "zero"
+			return sp
+		}(),
+		func() *fnSpec {
+			sp := parSpec("SetDuration", "parameters_SetDuration", "{α : Type} (formatD : α → Pgs.Bytes) (p : Pgs.C19.Map) (name : Pgs.Bytes) (d : α)", "Pgs.C19.Map", "void")
+			sp.pn = []string{"name", "d"}
+			sp.exprs["d.String()"] = "(formatD d)"
+			return sp
+		}(),
 		// C10: the list surgery of the persister
 		perSpec("indexOfFile", "persister_indexOfFile", "(files : List RespFile) (name : Pgs.Bytes)", "Int", "", []string{"resp", "name"}),
 		perSpec("tailOfFile", "persister_tailOfFile", "(files : List RespFile) (name : Pgs.Bytes)", "Int", "", []string{"resp", "name"}),
@@ -1729,6 +1880,25 @@ func codeSpecs() []*fnSpec {
 			exprs: map[string]string{"n": "n", "getter": "getter", "used": "used"},
 			calls: map[string]string{"get:used": "Pgs.GoNames.Used.get", "set:used": "Pgs.GoNames.Used.set"},
 			doc:   " - the function literal `unique`"},
+		// uniqueNames itself: the protected names taken first; then the fields in declaration order, a oneof named when its first member is met
+		{file: "lang/go/name.go", recv: "", name: "uniqueNames", lean: "go_uniqueNames", pn: []string{"m"},
+			named: "fields,oneofs", namedZero: "([] : List (Pgs.Bytes × Pgs.Bytes)),([] : List (Pgs.Bytes × Pgs.Bytes))",
+			loopVars: []string{"used", "fields", "oneofs"}, loopElem: "Pgs.Bytes,FieldN",
+			loopType: "(Pgs.GoNames.Used × List (Pgs.Bytes × Pgs.Bytes) × List (Pgs.Bytes × Pgs.Bytes))",
+			binders: "(protectedKeys : List Pgs.Bytes) (flds : List FieldN)", ret: "List (Pgs.Bytes × Pgs.Bytes) × List (Pgs.Bytes × Pgs.Bytes)",
+			doc: " (the underscore loop of `unique` is given |used| + 2 rounds: every round but the last finds another name that is taken)",
+			exprs: map[string]string{"make(map[pgs.Name]bool, len(protectedNames))": "([] : Pgs.GoNames.Used)", "protectedNames": "protectedKeys", "m.Fields()": "flds",
+				"map[string]pgs.Name{}": "([] : List (Pgs.Bytes × Pgs.Bytes))", "f.FullyQualifiedName()": "f.fqn", "f.Name()": "f.name", "f.OneOf()": "f",
+				"o != nil && o.Fields()[0] == f": "o.firstOfOneof", "o.FullyQualifiedName()": "o.oneofFqn", "o.Name()": "o.oneofName"},
+			calls: map[string]string{"set:used": "Pgs.GoNames.Used.set", "set:fields": "assocPut", "set:oneofs": "assocPut", "st:unique": "go_unique used (List.length used + 2)", "stvar:unique": "used",
+				"PGGUpperCamelCase": "Pgs.GoNames.PgsGo.camelCase"}},
+		// OneofOption: the wrapper type of a oneof member - `<Message>_<Field>`, underscores appended while it collides with a nested type
+		{file: "lang/go/name.go", recv: "context", name: "OneofOption", lean: "context_OneofOption", rn: "c", pn: []string{"field"},
+			loopVars: []string{"n", "conflict"}, loopType: "(Pgs.Bytes × Bool)", loopElem: "Pgs.Bytes",
+			binders: "(fuel_ : Nat) (msgName fieldName : Pgs.Bytes) (msgNames mapEntryNames enumNames : List Pgs.Bytes)", ret: "Pgs.Bytes",
+			exprs: map[string]string{"c.Name(field.Message())": "msgName", "c.Name(field)": "fieldName", "c.Name(msg)": "msg", "c.Name(en)": "en",
+				"field.Message().Messages()": "msgNames", "field.Message().MapEntries()": "mapEntryNames", "field.Message().Enums()": "enumNames"},
+			calls: map[string]string{"joinNames": "go_joinNames"}},
 		gnSpec("ServerName", "context", "context_ServerName", "(serviceName : Pgs.Bytes)", []string{"s"}),
 		gnSpec("ClientName", "context", "context_ClientName", "(serviceName : Pgs.Bytes)", []string{"s"}),
 		gnSpec("ServerStream", "context", "context_ServerStream", "(serviceName methodName : Pgs.Bytes)", []string{"m"}),
@@ -2143,6 +2313,49 @@ func goNameSteps(repo string) (string, error) {
 		{"lang/go/name.go", "context", "Name"}, {"lang/go/name.go", "context", "OneofOption"}, {"lang/go/name.go", "", "uniqueNames"}})
 }
 
+// source locations (C08): the loop that attaches them, and where each kind of entity keeps and returns its own
+func sciSteps(repo string) (string, error) {
+	ts := []stepTarget{{"ast.go", "graph", "hydrateSourceCodeInfo"}, {"file.go", "file", "addSourceCodeInfo"}, {"file.go", "file", "addPackageSourceCodeInfo"},
+		{"file.go", "file", "SourceCodeInfo"}, {"file.go", "file", "SyntaxSourceCodeInfo"}, {"file.go", "file", "PackageSourceCodeInfo"}}
+	for _, k := range [][2]string{{"message.go", "msg"}, {"enum.go", "enum"}, {"enum_value.go", "enumVal"}, {"field.go", "field"}, {"oneof.go", "oneof"}, {"service.go", "service"}, {"method.go", "method"}} {
+		ts = append(ts, stepTarget{k[0], k[1], "addSourceCodeInfo"}, stepTarget{k[0], k[1], "SourceCodeInfo"})
+	}
+	return stepTable(repo, "sciSteps", "ast.go and the entity files", ts)
+}
+
+// node.go: Walk, the two stock visitors, and the leaf accept methods (C07)
+func walkSteps(repo string) (string, error) {
+	ts := []stepTarget{{"node.go", "", "Walk"}, {"node.go", "", "NilVisitor"}, {"node.go", "", "PassThroughVisitor"}}
+	for _, k := range []string{"Package", "File", "Message", "Enum", "EnumValue", "Field", "Extension", "OneOf", "Service", "Method"} {
+		ts = append(ts, stepTarget{"node.go", "nilVisitor", "Visit" + k}, stepTarget{"node.go", "passVisitor", "Visit" + k})
+	}
+	ts = append(ts, stepTarget{"package.go", "pkg", "accept"}, stepTarget{"enum_value.go", "enumVal", "accept"}, stepTarget{"field.go", "field", "accept"},
+		stepTarget{"extension.go", "ext", "accept"}, stepTarget{"oneof.go", "oneof", "accept"}, stepTarget{"method.go", "method", "accept"})
+	return stepTable(repo, "walkSteps", "node.go and the leaf accept methods", ts)
+}
+
+// lang/go/parameters.go: the helpers over the plugin parameters and the keys they use
+func goParamSteps(repo string) (string, error) {
+	var ts []stepTarget
+	for _, n := range []string{"Plugins", "HasPlugin", "AddPlugin", "EnableAllPlugins", "ImportPath", "SetImportPath", "Paths", "SetPaths", "MappedImport", "AddImportMapping"} {
+		ts = append(ts, stepTarget{"lang/go/parameters.go", "", n})
+	}
+	t, err := stepTable(repo, "goParamSteps", "lang/go/parameters.go", ts)
+	if err != nil {
+		return "", err
+	}
+	consts := constExprs(parse(filepath.Join(repo, "lang/go/parameters.go")))
+	var rows []string
+	for _, n := range []string{"importPathKey", "importMapKeyPrefix", "pathTypeKey", "pluginsKey", "pluginsSep", "ImportPathRelative", "SourceRelative"} {
+		v, ok := strLit(consts[n])
+		if !ok {
+			return "", fmt.Errorf("lang/go/parameters.go: constant %s is not a string literal", n)
+		}
+		rows = append(rows, fmt.Sprintf("(%q, %q)", n, v))
+	}
+	return t + "/-- lang/go/parameters.go: the parameter keys and values -/\ndef goParamConsts : List (String × String) :=\n  [" + strings.Join(rows, ", ") + "]\n", nil
+}
+
 // lang/go/package.go: the pattern whose matches are replaced by "_" in package names
 func packagePattern(repo string) (string, error) {
 	f := parse(filepath.Join(repo, "lang/go/package.go"))
@@ -2245,9 +2458,14 @@ var lastSteps = map[string][]string{}
 func stepTable(repo, defName, what string, targets []stepTarget) (string, error) {
 	callText := func(c *ast.CallExpr) string {
 		var args []string
+		fn := exprText(c.Fun)
+		if i := strings.LastIndex(fn, "."); i >= 0 {
+			fn = fn[i+1:]
+		}
+		reports := map[string]bool{"Debug": true, "Debugf": true, "Log": true, "Logf": true, "Fail": true, "Failf": true, "CheckErr": true, "Assert": true, "panic": true, "Errorf": true}[fn]
 		for _, a := range c.Args {
-			if bl, ok := a.(*ast.BasicLit); ok && bl.Kind == token.STRING {
-				continue // messages
+			if bl, ok := a.(*ast.BasicLit); ok && bl.Kind == token.STRING && reports {
+				continue // the wording of a message is not behaviour
 			}
 			t := exprText(a)
 			if c.Ellipsis.IsValid() && a == c.Args[len(c.Args)-1] {
@@ -2394,6 +2612,32 @@ func stepTable(repo, defName, what string, targets []stepTarget) (string, error)
 						}
 						steps = append(steps, "}")
 					}
+				case *ast.SwitchStmt:
+					if x.Init != nil {
+						return fmt.Errorf("%s.%s: switch with init", t.recv, t.name)
+					}
+					tag := ""
+					if x.Tag != nil {
+						tag = exprText(x.Tag) + " "
+					}
+					steps = append(steps, "switch "+tag+"{")
+					for _, cl := range x.Body.List {
+						cc := cl.(*ast.CaseClause)
+						var vs []string
+						for _, v := range cc.List {
+							vs = append(vs, exprText(v))
+						}
+						if cc.List == nil {
+							steps = append(steps, "default {")
+						} else {
+							steps = append(steps, "case "+strings.Join(vs, ", ")+" {")
+						}
+						if err := walk(cc.Body); err != nil {
+							return err
+						}
+						steps = append(steps, "}")
+					}
+					steps = append(steps, "}")
 				case *ast.DeclStmt:
 					// a local type or variable declaration: by its text
 					steps = append(steps, "decl "+strings.Join(strings.Fields(stmtText(x)), " "))
@@ -2562,6 +2806,13 @@ func genCode(repo string) (map[string]string, error) {
 	b.WriteString("def lastIndexB (s sep : Pgs.Bytes) : Int := match sep with | [c] => (match Pgs.GoTypes.lastIndexOf c s with | some i => Int.ofNat i | none => -1) | _ => -1\n")
 	b.WriteString("/-- `nonAlphaNumPattern.ReplaceAllString(s, \"_\")`: every match of the pattern (Pgs.GenCode.nonAlphaNumPattern) replaced -/\n")
 	b.WriteString("def replaceNonAlnum (s repl : Pgs.Bytes) : Pgs.Bytes := if repl == [95] then Pgs.GoTypes.PgsGo.sanitize s else s\n")
+	b.WriteString("/-- `strconv.ParseFloat(s, 64)` / `strconv.FormatFloat(f, 'g', -1, 64)` with the float codec a parameter: other bit sizes / formats are not what the source asks for -/\n")
+	b.WriteString("def parseFloatE {α : Type} (pf : Pgs.Bytes → Except Pgs.Bytes α) (s : Pgs.Bytes) (bits : Int) : Except Pgs.Bytes α := if bits == 64 then pf s else .error [98]\n")
+	b.WriteString("def formatFloatB {α : Type} (ff : α → Pgs.Bytes) (f : α) (fmt : Nat) (prec bits : Int) : Pgs.Bytes := if fmt == 103 && prec == -1 && bits == 64 then ff f else []\n")
+	b.WriteString("/-- what uniqueNames reads of a field: its names, and of its oneof (if it is the first member of one) the names -/\n")
+	b.WriteString("structure FieldN where\n  fqn : Pgs.Bytes\n  name : Pgs.Bytes\n  firstOfOneof : Bool\n  oneofFqn : Pgs.Bytes\n  oneofName : Pgs.Bytes\n")
+	b.WriteString("/-- a Go map keyed by fully-qualified names, which are distinct: the record of what was stored, in order -/\n")
+	b.WriteString("def assocPut (m : List (Pgs.Bytes × Pgs.Bytes)) (k v : Pgs.Bytes) : List (Pgs.Bytes × Pgs.Bytes) := m ++ [(k, v)]\n")
 	b.WriteString("def lookupTbl (t : List (Pgs.Bytes × Pgs.Bytes)) (k : Pgs.Bytes) : Option Pgs.Bytes := (t.find? (·.1 == k)).map (·.2)\n")
 	b.WriteString("/-- a prefixedDebugger, as far as its output goes, is the prefix string it stores -/\n")
 	b.WriteString("def mkPrefixedDebugger (parent : Unit) (prefix_ : Pgs.Bytes) : Pgs.Bytes := prefix_\n")
@@ -2610,7 +2861,7 @@ func genCode(repo string) (map[string]string, error) {
 	tables := []struct {
 		name string
 		gen  func(string) (string, error)
-	}{{"nameHelpers", nameHelpers}, {"acceptOrders", acceptOrders}, {"typePredicates", typePredicates}, {"hydratePhases", hydratePhases}, {"childAtPaths", childAtPaths}, {"workflowSteps", workflowSteps}, {"commentSteps", commentSteps}, {"persistSteps", persistSteps}, {"astEntrySteps", astEntrySteps}, {"packagePattern", packagePattern}, {"moduleSteps", moduleSteps}, {"importSteps", importSteps}, {"goNameSteps", goNameSteps}}
+	}{{"nameHelpers", nameHelpers}, {"acceptOrders", acceptOrders}, {"typePredicates", typePredicates}, {"hydratePhases", hydratePhases}, {"childAtPaths", childAtPaths}, {"workflowSteps", workflowSteps}, {"commentSteps", commentSteps}, {"persistSteps", persistSteps}, {"astEntrySteps", astEntrySteps}, {"packagePattern", packagePattern}, {"moduleSteps", moduleSteps}, {"importSteps", importSteps}, {"goNameSteps", goNameSteps}, {"sciSteps", sciSteps}, {"walkSteps", walkSteps}, {"goParamSteps", goParamSteps}}
 	for _, g := range tables {
 		t, err := g.gen(repo)
 		if err != nil {
